@@ -1,5 +1,6 @@
 """C18 - sorting and grouping reorder without losing or inventing examples."""
 import json
+import common
 import random
 import warnings
 
@@ -41,6 +42,7 @@ def direct_cases(rng, n_cases):
 
 
 def direct_oracle(c):
+    common.gc_point()
     fails = []
     vals, keys = c['vals'], c['keys']
     # payloads are dicts: comparing two examples raises TypeError, so any comparison of examples shows
@@ -128,6 +130,7 @@ def groupby_requests(rng, n_cases):
 
 
 def groupby_impl(req):
+    common.gc_point()
     import impl
     with warnings.catch_warnings():
         warnings.simplefilter('ignore')
